@@ -131,14 +131,17 @@ class FifoOracle(object):
                 q.pop(0)
                 blanks = 0
             elif k in ("file", "hunk", "commit", "mcheader"):
-                while len(q) > own and blanks > 0 and self._is_empty(q[0]):
+                # (only a hunk header - or the headers of a conflict region - may precede the line that is being
+                # consumed; a file or commit header in the middle of a hunk separates the line from its hunk)
+                own_ = own if k in ("hunk", "mcheader") else 0
+                while len(q) > own_ and blanks > 0 and self._is_empty(q[0]):
                     q.pop(0)
                     blanks -= 1
-                if len(q) > own:
+                if len(q) > own_:
                     raise ViolationError(
                         "header-before-lines", "a %s header row %r is written while %d earlier "
                         "hunk line(s) are still pending (first: %r)"
-                        % (k, info.text, len(q) - own, q[0][1][0]),
+                        % (k, info.text, len(q) - own_, q[0][1][0]),
                         expected=q[0][1][0], observed=info.text)
                 blanks = 0
             elif k == "other" and info.text.startswith("commit " + producers.H40A.decode()):
